@@ -798,7 +798,10 @@ func (db *DB) searchAll(o Object, field, operator string, value interface{}, con
 	fp := fieldPath(field)
 	searchType := search.valueTypeString()
 
-	for obj, err := iter.next(); err == nil && err != ErrEOI; obj, err = iter.next() {
+	// err must not be shadowed by the loop, an object which cannot be read
+	// makes the search fail instead of silently ending it
+	var obj Object
+	for obj, err = iter.next(); err == nil && err != ErrEOI; obj, err = iter.next() {
 		var test *indexedField
 		var value interface{}
 		var ok bool
